@@ -26,6 +26,8 @@ def sub_rng(seed, *names):
 
 # ------------------------------------------------------------------------------------------- osim
 class Osim:
+    load_dependent_ends = 0   # per worker process
+
     def __init__(self, flavour='sim', env=None, prefix=None):
         self.flavour = flavour
         self.path = os.path.join(BUILD, flavour, 'osim')
@@ -54,7 +56,10 @@ class Osim:
             self.close()
             return {'id': plan.get('id'), 'harness_error': 'osim server died', 'log': [], 'exit': -1, 'sig': 0, 'stdout': '', 'stderr': ''}
         self.runs += 1
-        return json.loads(resp)
+        r = json.loads(resp)
+        if r.get('wall_timeout') or r.get('sig') == 24:
+            Osim.load_dependent_ends += 1     # ended by a wall-clock / CPU-time backstop: depends on machine load, not on the plan
+        return r
 
     def close(self):
         if self.proc is not None:
@@ -179,15 +184,20 @@ def _worker(check, seed, tier, wid, nworkers, deadline, max_cases, outq, det_rat
             try:
                 case = check.gen_case(seed, idx, tier)
                 t0 = time.time()
+                lde0 = Osim.load_dependent_ends
                 res = check.run_case(ctx, case)
                 res['idx'] = idx
                 res['wall'] = time.time() - t0
                 # determinism sampling: re-run a fraction of the cases and compare execution hashes
                 dr = sub_rng(seed, 'det', idx).random()
-                if dr < det_rate and res.get('hash') is not None:
+                if Osim.load_dependent_ends != lde0:
+                    bump(res, 'load-dependent-end')   # a run hit the wall-clock / CPU backstop: not comparable between executions
+                elif dr < det_rate and res.get('hash') is not None:
                     res2 = check.run_case(ctx, case)
                     res['det_pair'] = 1
-                    if res2.get('hash') != res.get('hash') or sorted(v['cls'] for v in res2['violations']) != sorted(v['cls'] for v in res['violations']):
+                    if Osim.load_dependent_ends != lde0:
+                        bump(res, 'load-dependent-end')
+                    elif res2.get('hash') != res.get('hash') or sorted(v['cls'] for v in res2['violations']) != sorted(v['cls'] for v in res['violations']):
                         res['det_mismatch'] = True
                 if res['violations']:
                     res['case'] = case
